@@ -148,6 +148,7 @@ def classify(meta, run, unit_file):
     except Exception:
         base_skel = {}
     reshaped = set(f['key'] for f in meta.get('functions', []) if f['key'] in base_skel and 'skeleton' in f and f['skeleton'] != base_skel[f['key']])
+    new_callees = {}
     unit_vocab = set(x for v in base_calls.values() for x in v)
     for f in meta.get('functions', []):
         if f['key'] in base_calls and 'calls' in f:
@@ -161,6 +162,11 @@ def classify(meta, run, unit_file):
                 nw.append(x)
             if nw:
                 new_trait_calls[f['key']] = nw
+            # any other callee the function did not call on the unchanged tree: the proof was not written with that callee's contract in
+            # mind (it may be too weak for this caller) -- same treatment as a changed control-flow shape
+            other_new = sorted(set(f['calls']) - set(base_calls[f['key']]))
+            if other_new and f['key'] not in new_trait_calls:
+                new_callees[f['key']] = other_new
     canary_lines = set(meta.get('canary_lines', []))
     canary_failed = False
     canaries_failed = set()
@@ -207,6 +213,12 @@ def classify(meta, run, unit_file):
                 tool_scoped.append({'tags': info.get('tags', []), 'clause': info['clause'],
                                     'msg': 'fn %s has new call site(s) of %s, which need their own termination argument: obligation %s is undecided (not a violation)' %
                                            (info['fn'], ', '.join(new_rec_sites[info['fn']]), info['clause'])})
+                continue
+            if info['fn'] in new_callees and info['fn'] not in reshaped:
+                tool_scoped.append({'tags': info.get('tags', []), 'clause': info['clause'], 'needs_input': True, 'fn': info['fn'],
+                                    'rendered': d.get('rendered', '')[:3000], 'message': msg,
+                                    'msg': 'fn %s calls %s, which it did not call on the unchanged tree (the proof was not written against that contract): the failed obligation %s is reported only if a concrete failing input confirms it' %
+                                           (info['fn'], ', '.join(new_callees[info['fn']][:4]), info['clause'])})
                 continue
             if info['fn'] in reshaped:
                 tool_scoped.append({'tags': info.get('tags', []), 'clause': info['clause'], 'needs_input': True, 'fn': info['fn'],
